@@ -97,10 +97,12 @@ def lastSeen (log : List (Nat × Seen)) (e : Nat) : Option Seen :=
 def chainOf (st : St) (e : Nat) : Chain := match st.effs[e]? with | some x => x.chain | none => []
 def isImm (st : St) (e : Nat) : Bool := match st.effs[e]? with | some x => x.imm | none => false
 
-/-- does some reader precede a reader of one of its proper ancestors? -/
-def orderBad (st : St) : List Nat → Bool
+/-- the statement's order clause: a reader of a proper ancestor of the written field `w` must not run
+after (its first run) a reader of a proper descendant of `w` -/
+def orderBad (st : St) (w : Chain) : List Nat → Bool
   | [] => false
-  | e :: rest => rest.any (fun e2 => strictPrefix (chainOf st e2) (chainOf st e)) || orderBad st rest
+  | e :: rest =>
+    (strictPrefix w (chainOf st e) && rest.any (fun e2 => strictPrefix (chainOf st e2) w)) || orderBad st w rest
 
 def valuesBad (st : St) (ids : List Nat) : Bool :=
   ids.any fun e =>
@@ -116,27 +118,31 @@ def endsDefaultTrack (c : Chain) : Bool :=
   match c.getLast? with | some (.key _) => true | some (.kfld _) => true | some (.idx _) => true | _ => false
 
 /-- verdict of a write-like op: `ws` = the logical chains written, `wc` = the accessor chain used -/
-def judgeWrite (before st : St) (ws : List Chain) (wc : Chain) (isPatch : Bool) : String :=
+def judgeWrite (before st : St) (ever : List Bool) (ws : List Chain) (wc : Chain) (isPatch : Bool) : String :=
   let all := List.range st.effs.length
   let exp := all.filter fun e => ws.any fun w => related w (chainOf st e)
   let rb := before.ready
   let ra := st.ready
   let ran := dedup (st.log.map (·.1))
   let missing := exp.filter fun e => if isImm st e then !ran.contains e else !ra.contains e
-  let spurious := (ra.filter fun e => !rb.contains e && !exp.contains e) ++ (ran.filter fun e => !exp.contains e)
+  -- a reader of a key that has never been in the collection has no field: waking it is not held against the code
+  let excused (e : Nat) : Bool :=
+    !(ever.getD e true) && (match logicalGet st.val (chainOf st e) with | .none => true | _ => false)
+  let spurious := ((ra.filter fun e => !rb.contains e && !exp.contains e) ++ (ran.filter fun e => !exp.contains e)).filter
+    (fun e => !excused e)
   let keyed := hasKey wc || ws.any hasKey
   if valuesBad st ran then "fail stale-keys"
   else if !spurious.isEmpty then
     if hasIdx wc then "fail index-write-wakes-cousins"
     else if isPatch && keyed then "fail patch-keyed-by-index"
     else if spurious.any (fun e => match logicalGet st.val (chainOf st e) with | .none => true | _ => false)
-      then "fail absent-key-path-collapse"
+      then "fail removed-key-reader-not-dropped"
     else "fail segment-collision"
   else if !missing.isEmpty then
     if isPatch && keyed then "fail patch-keyed-by-index"
     else if missing.all (fun e => endsDefaultTrack (chainOf st e)) then "fail accessor-misses-ancestor-write"
     else "fail missing-wake"
-  else if orderBad st ran then "fail descendant-wake-order"
+  else if orderBad st wc ran then "fail wake-order"
   else "ok"
 
 def judgeRuns (st : St) : String :=
@@ -147,6 +153,14 @@ def judgeRuns (st : St) : String :=
 structure DS where
   st : Option St
   dead : Bool
+  /-- per reader: has its field ever existed (keyed items: has its key ever been in the collection)? -/
+  ever : List Bool
+
+def presentNow (st : St) (e : Nat) : Bool :=
+  match logicalGet st.val (chainOf st e) with | .none => false | _ => true
+
+def updEver (ever : List Bool) (st : St) : List Bool :=
+  (List.range st.effs.length).map fun e => ever.getD e false || presentNow st e
 
 def render (st : St) (pre : String) (verdict : String) : String :=
   s!"{pre}r={showIds st.ready} l={showLog st.log} ## {verdict}"
@@ -159,8 +173,9 @@ def showWrote : Wrote → String
 def doWrite (d : DS) (st : St) (op : Op) (c : Chain) (isPatch : Bool) (newv : Option Val) : DS × String :=
   let old := logicalGet st.val c
   let r := stepOp st op
-  if r.1.panicked then ({ st := some r.1, dead := true }, "panic ## fail stale-keys")
+  if r.1.panicked then ({ d with st := some r.1, dead := true }, "panic ## fail stale-keys")
   else
+    let ever := updEver d.ever r.1
     let ws : List Chain :=
       match r.2 with
       | .done =>
@@ -170,7 +185,7 @@ def doWrite (d : DS) (st : St) (op : Op) (c : Chain) (isPatch : Bool) (newv : Op
           | _, _ => [c]
         else [c]
       | _ => []
-    ({ d with st := some r.1 }, render r.1 s!"w={showWrote r.2} " (judgeWrite st r.1 ws c isPatch))
+    ({ d with st := some r.1, ever := ever }, render r.1 s!"w={showWrote r.2} " (judgeWrite st r.1 ever ws c isPatch))
 
 def vecLen (st : St) (c : Chain) : Option Nat :=
   match logicalGet st.val c with
@@ -179,13 +194,13 @@ def vecLen (st : St) (c : Chain) : Option Nat :=
 
 def step (d : DS) (line : String) : DS × String :=
   match words line with
-  | ["case", n] => ({ st := none, dead := false }, s!"case {n}")
+  | ["case", n] => ({ st := none, dead := false, ever := [] }, s!"case {n}")
   | ws =>
     if d.dead then (d, "dead") else
     match ws, d.st with
     | ["init", v], _ =>
       match parseValStr v with
-      | some v => ({ d with st := some (St.init v) }, "ok")
+      | some v => ({ d with st := some (St.init v), ever := [] }, "ok")
       | none => (d, "bad-op")
     | _, none => (d, "bad-op")
     | [kind, c], some st =>
@@ -195,8 +210,8 @@ def step (d : DS) (line : String) : DS × String :=
         let mk (iter imm : Bool) : DS × String :=
           if iter && !endsKeyed c then (d, "bad-op") else
           let r := stepOp st (.reader c iter imm)
-          if r.1.panicked then ({ st := some r.1, dead := true }, "panic ## fail stale-keys")
-          else ({ d with st := some r.1 }, render r.1 "" (judgeRuns r.1))
+          if r.1.panicked then ({ d with st := some r.1, dead := true }, "panic ## fail stale-keys")
+          else ({ d with st := some r.1, ever := updEver d.ever r.1 }, render r.1 "" (judgeRuns r.1))
         if kind == "eff" then mk false false
         else if kind == "effi" then mk true false
         else if kind == "imm" then mk false true
@@ -209,7 +224,7 @@ def step (d : DS) (line : String) : DS × String :=
         else (d, "bad-op")
     | ["idle"], some st =>
       let r := stepOp st .idle
-      if r.1.panicked then ({ st := some r.1, dead := true }, "panic ## fail stale-keys")
+      if r.1.panicked then ({ d with st := some r.1, dead := true }, "panic ## fail stale-keys")
       else ({ d with st := some r.1 }, render r.1 "" (judgeRuns r.1))
     | [kind, c, a], some st =>
       match parseChain c with
@@ -248,9 +263,9 @@ def step' (d : DS) (line : String) : DS × String :=
     match i.toNat? with
     | some i =>
       let r := stepOp st (.poll i)
-      if r.1.panicked then ({ st := some r.1, dead := true }, "panic ## fail stale-keys")
+      if r.1.panicked then ({ d with st := some r.1, dead := true }, "panic ## fail stale-keys")
       else ({ d with st := some r.1 }, render r.1 "" (judgeRuns r.1))
     | none => (d, "bad-op")
   | _, _, _ => step d line
 
-def main : IO Unit := runDriver step' { st := none, dead := false }
+def main : IO Unit := runDriver step' { st := none, dead := false, ever := [] }
